@@ -6,7 +6,7 @@ import ast
 
 from ..cfg import cfg_of
 from ..index import AnalysisError, function_stmts, walk_no_nested
-from ..util import (ifexp_guards, same_module_helpers, Expander, callee_last, calls_in, enclosing_stmt, kw, names_in, path_condition, show_condition, txt,
+from ..util import (bool_atoms, ifexp_guards, same_module_helpers, Expander, callee_last, calls_in, enclosing_stmt, kw, names_in, path_condition, show_condition, txt,
                     in_subtree)
 
 EXPLANATION = (
@@ -186,6 +186,29 @@ def _is_failure_case_helper(cls, f) -> bool:
 
 
 
+def _pure_null_test(ix, f, node, depth=0) -> bool:
+    """`x.hasnans`, `x.isna().any()` / `isnull` / `has_nulls` forms, and/or of those, or a private helper all of whose
+    returns are such tests (a helper that answers a constant on some path is not)"""
+    if isinstance(node, ast.Attribute) and node.attr == "hasnans":
+        return True
+    if isinstance(node, ast.Call) and callee_last(node) == "any" and isinstance(node.func, ast.Attribute) and \
+            any(isinstance(x, ast.Call) and callee_last(x) in ("isna", "isnull") for x in ast.walk(node.func.value)):
+        return True
+    if isinstance(node, ast.BoolOp):
+        return all(_pure_null_test(ix, f, v, depth) for v in node.values)
+    if isinstance(node, ast.Call) and depth < 2:
+        name = callee_last(node)
+        h = None
+        if isinstance(node.func, ast.Attribute) and isinstance(node.func.value, ast.Name) and node.func.value.id in ("self", "cls") and f.cls is not None:
+            h = f.cls.lookup(name)
+        elif isinstance(node.func, ast.Name):
+            h = f.module.functions.get(name)
+        if h is not None:
+            rets = [r for r in walk_no_nested(h.node) if isinstance(r, ast.Return)]
+            return bool(rets) and all(r.value is not None and _pure_null_test(ix, h, r.value, depth + 1) for r in rets)
+    return False
+
+
 def r3_ignore_na(ctx):
     ix = ctx.ix
     pcb, lcb = ix.cls(PCB), ix.cls(LCB)
@@ -216,6 +239,20 @@ def r3_ignore_na(ctx):
                 pc = path_condition(cfg, cfg.node_of(st).id, keep=keep, extra=ifexp_guards(c, st))
                 ok = pc == (("self.check.ignore_na",), frozenset({(True,)}))
                 n_drop += 1
+                if ok and not post_check:
+                    # whatever else the drop is conditional on has to be a pure "are there nulls" test: any further condition
+                    # (a dtype short cut, a size test) leaves nulls in the data although ignore_na is set
+                    extra_atoms = {}
+                    for t, pol in list(cfg.guards(cfg.node_of(st).id)) + list(ifexp_guards(c, st)):
+                        if pol:
+                            for at, an in bool_atoms(t).items():
+                                if "ignore_na" not in at and "groupby" not in at:
+                                    extra_atoms[at] = an
+                    impure = [at for at, an in extra_atoms.items() if not _pure_null_test(ctx.ix, f, an)]
+                    ctx.ob("R3", f, f"`{txt(c)[:50]}`: apart from ignore_na the drop depends only on whether nulls are present", not impure,
+                           "pure null-presence test" if not impure else
+                           f"nulls are dropped only when `{impure[0][:70]}` also holds, which is not a plain null-presence test: when it is false the nulls stay and are shown "
+                           "to the check function although ignore_na=True (e.g. a dtype-kind short cut: nullable Int64 / boolean columns report kind 'i' / 'b' and do hold <NA>)", f.loc(c))
                 ctx.ob("R3", f, f"`{txt(c)[:50]}` only when ignore_na", ok,
                        "guarded by ignore_na" if ok else f"nulls are dropped under {show_condition(pc)}: nulls hidden from "
                        "the check function although ignore_na is False", f.loc(c))
